@@ -1,0 +1,20 @@
+//go:build verif
+
+// Package verifhook provides build-tag guarded observation points used by
+// the external verification harness. With the "verif" build tag off every
+// call compiles to an empty function.
+package verifhook
+
+// Hook, when set, is called at every instrumented site. It may block (the
+// harness uses that as a scheduler gate) or kill the process (crash points).
+var Hook func(site string, kv ...string)
+
+// At reports that the calling goroutine reached the named site.
+func At(site string, kv ...string) {
+	if h := Hook; h != nil {
+		h(site, kv...)
+	}
+}
+
+// Enabled reports whether hooks are compiled in.
+const Enabled = true
